@@ -279,7 +279,8 @@ impl std::fmt::Display for InvalidProofKind {
                 leaf_index,
                 tree_size,
             } => {
-                let tree_index = crate::leaf_index_to_tree_index(*leaf_index);
+                // computed in 128 bits: the leaf index is untrusted and may not fit once doubled
+                let tree_index = (*leaf_index as u128).saturating_mul(2);
                 f.write_fmt(format_args!(
                     "leaf index {leaf_index} corresponding to tree index {tree_index} exceeds \
                      tree of size {tree_size}"
@@ -543,9 +544,17 @@ impl Proof {
             leaf_index,
             tree_size,
         } = self;
+        let root = crate::complete_root(tree_size.get());
         let mut i = crate::leaf_index_to_tree_index(*leaf_index);
         let mut acc = leaf_hash;
         for sibling in audit_path.chunks(32) {
+            // An audit path with more segments than the leaf is deep does not belong to a tree
+            // of this size. The root has no parent to walk to, so stay there but keep hashing:
+            // the reconstructed value is then one hash further than the root and cannot match it.
+            if i == root {
+                acc = crate::combine(&acc, sibling);
+                continue;
+            }
             let parent = crate::complete_parent(i, tree_size.get());
             if parent > i {
                 acc = crate::combine(&acc, sibling);
